@@ -63,7 +63,10 @@ def make_main(d, name):
         w(f"        if (sid == {i}) {{ {T}Options zo;")
         for r_ in sorted(rd):
             w(f"          zo.{r_} = R(in);")
-        w(f"          rs.push_back(MF::wrap(ts, {T}(zo))); }}")
+        # all the ways the repository's own callers hand a reading to wrap(): a temporary, a named object, a const named object
+        w(f"          if (r % 3 == 0) {{ rs.push_back(MF::wrap(ts, {T}(zo))); }}")
+        w(f"          else if (r % 3 == 1) {{ {T} named(zo); rs.push_back(mf.wrap(ts, named)); }}")
+        w(f"          else {{ rs.push_back(mf.template wrap<{T}>(ts, zo)); }} }}")
     w("      }")
     w("      int withList; in >> withList;")
     if Lc:
